@@ -175,6 +175,8 @@ func runC07(c *Ctx) {
 	checkWitnessSignaturesUseCompressedKeys(c, "C07-R2")
 	checkSumOutputValuesAddsEveryOutput(c, "C07-R1")
 	checkMinInputSizeConstantsByKind(c, "C07-R3")
+	checkAuthorNeverWritesThroughCallerOutputs(c, "C07-R4")
+	checkDustJudgedOnRealChangeScript(c, "C07-R4")
 	checkFeeProductOverflowGuard(c, "C07-R2")
 	checkEstimatorArgumentKinds(c, "C07-R2")
 	checkNoStaleTailAfterInPlaceFilter(c, "C07-R4") // an input handed out twice is counted twice
